@@ -12,6 +12,12 @@ CLAIMED = {
   text="Finite and fully static: the decision structure of `unmarshal` and of each (*T).Unmarshal is evaluated on the typed SSA for all 2x32x256 header values (everything else Unknown, both branch outcomes followed) and compared with the registry table written from IANA/RFC text: dispatch table both ways (C07-TAB), each Marshal's header constants dispatch back to the same type (C07-SELF), no decoder can return nil for a foreign (PT,FMT) and can for its own (C07-GRD), RawPacket keeps the parameter slice itself (C07-RAW). Every obligation must be discharged; an undecided one fails. Proof over the abstract semantics of checker/pe, not a test: no rtcp code is executed.",
   note="Trusted: go/types+go/ssa (x/tools v0.29.0), the evaluator's transfer functions (checker/pe), registry table checker/spec/registry.go, Header field names Type/Count, non-nil package error variables (checked by C18-GLOB). Version bits fixed to 2. Value-level acceptance of own-kind bodies is not covered. Known findings F9, F10a-c (known_findings.json).",
   design="DESIGN.md §2 C07"),
+ "C18": dict(
+  level="other",
+  technique="static analysis: flow-insensitive alias/effect (write-set) analysis over go/ssa with summaries over the VTA call graph",
+  text="Decides the structural content of the property for all schedules and call histories at once: (GLOB) no function but the package initialiser writes package-level state, no goroutines/channels/sync/time/rand/os/map-iteration, unsafe only at the reflect.NewAt site; (RECV) every Marshal/MarshalSize/MarshalTo/DestinationSSRC/String/Header/Len/Validate/CNAME/Range/PacketList/... method has an empty write set w.r.t. its receiver, with ExtendedReport.Marshal verified to write only XRHeader.{BlockType,TypeSpecific,BlockLength} through setupBlockHeader; (INPUT) all 24 decode entry points have an empty write set w.r.t. their input slice; (FRESH) Marshal results are fresh allocations (RawPacket: the receiver). A positive-control fixture must make every rule fire on every run. Not a race-detector run: nothing is executed.",
+  note="Trusted: go/ssa, VTA call graph, the effect model of builtins and of external functions (table in checker/effects). Assumes callers do not mutate a packet concurrently. 'Identical results on repetition' is covered only as absence of writes and of nondeterministic sources.",
+  design="DESIGN.md §2 C18"),
 }
 
 NA = {
